@@ -108,6 +108,24 @@ def probe_opt(ctx, payload):
         ctx.violation("attribute-assigned==constructed", "opt", payload,
                       dict(t=t, limit_sigma=lim, constructed=runs["both_omitted"].res[0][0],
                            assigned=None if o_attr.exc else [o_attr.res[0][0].mu, o_attr.res[0][0].sigma]), model, reg)
+    # the same for EVERY public parameter: a model constructed with other values whose attributes are then assigned
+    from ..util import GAMMAS as _G, DEFAULTS as _D
+
+    target = dict(case["cfg"], tau=t, limit_sigma=lim)
+    m_all, teams_all, kw_all = build(dict(case, cfg=dict(_D, gamma="default"), call={}))
+    _warm_up(m_all)
+    for attr in ("mu", "sigma", "beta", "kappa", "tau", "limit_sigma"):
+        v = target[attr]
+        setattr(m_all, attr, float(v) if attr in ("mu", "sigma", "kappa", "tau") else v)
+    if _G[target["gamma"]] is not None:
+        m_all.gamma = _G[target["gamma"]]
+    o_all = observe(m_all, "rate", teams_all, **kw_all)
+    ctx.ev("all-attributes-assigned==constructed")
+    got = None if o_all.exc else [x.hex() for t_ in o_all.res for p_ in t_ for x in (float(p_.mu), float(p_.sigma))]
+    if got != f["both_omitted"]:
+        ctx.violation("all-attributes-assigned==constructed", "opt", payload,
+                      dict(target={k_: v_ for k_, v_ in target.items()}, constructed=runs["both_omitted"].res[0][0],
+                           assigned=None if o_all.exc else [o_all.res[0][0].mu, o_all.res[0][0].sigma]), model, reg)
     tau_matters = f["tau_model"] != f["tau_otherval"]
     lim_matters = f["lim_model"] != f["lim_otherval"]
     ctx.bucket("option_matters", f"tau={tau_matters}/limit={lim_matters}")
